@@ -21,6 +21,8 @@ type Opt struct {
 	// StrAtoms emits strings and keys as JSON strings (TLA+ string atoms: equality only) instead of
 	// byte lists.
 	StrAtoms bool
+	// AlwaysDec gives every int its exact decimal ("dec") even when it fits a TLC integer.
+	AlwaysDec bool
 	// FloatMid adds the exact decimal expansions of the two midpoints around a float64 (C02/C04).
 	FloatMid bool
 }
@@ -44,6 +46,9 @@ func (o Opt) str(s string) any {
 }
 
 func (o Opt) intVal(i int64) any {
+	if o.AlwaysDec {
+		return map[string]any{"t": "int", "dec": Dec(strconv.FormatInt(i, 10))}
+	}
 	if -(1<<30) <= i && i <= 1<<30 {
 		return map[string]any{"t": "int", "v": i}
 	}
@@ -51,6 +56,9 @@ func (o Opt) intVal(i int64) any {
 }
 
 func (o Opt) uintVal(u uint64) any {
+	if o.AlwaysDec {
+		return map[string]any{"t": "int", "dec": Dec(strconv.FormatUint(u, 10))}
+	}
 	if u <= 1<<30 {
 		return map[string]any{"t": "int", "v": int64(u)}
 	}
@@ -61,11 +69,67 @@ func (o Opt) uintVal(u uint64) any {
 // normalised form used by the specs: {neg, digits (no leading zeros, no trailing zeros), exp10} meaning
 // digits * 10^exp10; zero is {neg:false, digits:[], exp10:0}.
 func Dec(lit string) any {
-	r, ok := new(big.Rat).SetString(lit)
-	if !ok {
+	// parsed by hand: big.Rat refuses large exponents, and the result must be exact
+	i := 0
+	neg := false
+	if i < len(lit) && (lit[i] == '-' || lit[i] == '+') {
+		neg = lit[i] == '-'
+		i++
+	}
+	var digs []int
+	nd := 0
+	for ; i < len(lit) && '0' <= lit[i] && lit[i] <= '9'; i++ {
+		digs = append(digs, int(lit[i]-'0'))
+		nd++
+	}
+	exp := 0
+	if i < len(lit) && lit[i] == '.' {
+		i++
+		for ; i < len(lit) && '0' <= lit[i] && lit[i] <= '9'; i++ {
+			digs = append(digs, int(lit[i]-'0'))
+			exp--
+			nd++
+		}
+	}
+	if nd == 0 {
 		return map[string]any{"bad": lit}
 	}
-	return RatDec(r)
+	if i < len(lit) && (lit[i] == 'e' || lit[i] == 'E') {
+		i++
+		eneg := false
+		if i < len(lit) && (lit[i] == '-' || lit[i] == '+') {
+			eneg = lit[i] == '-'
+			i++
+		}
+		e, n := 0, 0
+		for ; i < len(lit) && '0' <= lit[i] && lit[i] <= '9'; i++ {
+			if e < 100000000 {
+				e = e*10 + int(lit[i]-'0')
+			}
+			n++
+		}
+		if n == 0 {
+			return map[string]any{"bad": lit}
+		}
+		if eneg {
+			e = -e
+		}
+		exp += e
+	}
+	if i != len(lit) {
+		return map[string]any{"bad": lit}
+	}
+	for len(digs) > 0 && digs[0] == 0 {
+		digs = digs[1:]
+	}
+	for len(digs) > 0 && digs[len(digs)-1] == 0 {
+		digs = digs[:len(digs)-1]
+		exp++
+	}
+	if len(digs) == 0 {
+		return map[string]any{"neg": false, "digits": []int{}, "exp10": 0}
+	}
+	return map[string]any{"neg": neg, "digits": digs, "exp10": exp}
 }
 
 // RatDec normalises a rational that has a finite decimal expansion.
@@ -73,6 +137,14 @@ func RatDec(r *big.Rat) any {
 	neg := r.Sign() < 0
 	a := new(big.Rat).Abs(r)
 	exp := 0
+	// fast path: denominator 2^k (every float64 and every midpoint): value = num * 5^k * 10^-k
+	if d := a.Denom(); d.BitLen() > 1 && new(big.Int).And(d, new(big.Int).Sub(d, big.NewInt(1))).Sign() == 0 {
+		k := d.BitLen() - 1
+		n := new(big.Int).Exp(big.NewInt(5), big.NewInt(int64(k)), nil)
+		n.Mul(n, a.Num())
+		a = new(big.Rat).SetInt(n)
+		exp = -k
+	}
 	ten := big.NewRat(10, 1)
 	for !a.IsInt() {
 		a.Mul(a, ten)
@@ -129,7 +201,22 @@ func FloatMidpoints(f float64) (lo, hi any) {
 
 func (o Opt) floatVal(f float64) any {
 	m := map[string]any{"t": "flt", "s": strconv.FormatFloat(f, 'g', -1, 64)}
+	if o.FloatMid {
+		// fields present in every float record so that TLC can select them
+		zero := Dec("0")
+		m["inf"], m["thr"], m["lo"], m["hi"] = 0, zero, zero, zero
+	}
 	if math.IsInf(f, 0) || math.IsNaN(f) {
+		if o.FloatMid && math.IsInf(f, 0) {
+			// +-Inf is "nearest" exactly for literals at or beyond MaxFloat64 + half an ulp
+			ulp := new(big.Rat).Sub(new(big.Rat).SetFloat64(math.MaxFloat64), new(big.Rat).SetFloat64(math.Nextafter(math.MaxFloat64, 0)))
+			thr := new(big.Rat).Add(new(big.Rat).SetFloat64(math.MaxFloat64), ulp.Mul(ulp, big.NewRat(1, 2)))
+			m["thr"] = RatDec(thr)
+			m["inf"] = 1
+			if f < 0 {
+				m["inf"] = -1
+			}
+		}
 		return m
 	}
 	// small dyadic rationals n / 2^k are exact in TLC integers
